@@ -225,6 +225,9 @@ func Mutant(t *rapid.T, in Input, k int, allowed func(class string) bool) ([]byt
 	if len(used) == 0 {
 		return nil, nil
 	}
+	// printed without comments: next to synthesised (position-less) nodes the printer would place
+	// them at arbitrary token boundaries, which is outside the domain of a base source
+	f.Comments = nil
 	var buf bytes.Buffer
 	ok := func() (ok bool) {
 		defer func() {
